@@ -12,7 +12,7 @@ use crate::{
     Error, Result,
     builder::ArchiveBuilder,
     compression,
-    crypto::{decrypt_block, decrypt_dword, hash_string, hash_type},
+    crypto::{decrypt_block, hash_string, hash_type},
     header::{self, MpqHeader, UserDataHeader},
     special_files,
     tables::{BetTable, BlockTable, HashTable, HetTable, HiBlockTable},
@@ -2792,23 +2792,8 @@ pub fn decrypt_file_data(data: &mut [u8], key: u32) {
         }
     }
 
-    // Handle remaining bytes if not aligned to 4
-    let remainder = data.len() % 4;
-    if remainder > 0 {
-        let offset = chunks * 4;
-
-        // Read remaining bytes into a u32 (padding with zeros)
-        let mut last_bytes = [0u8; 4];
-        last_bytes[..remainder].copy_from_slice(&data[offset..(remainder + offset)]);
-        let last_dword = u32::from_le_bytes(last_bytes);
-
-        // Decrypt with adjusted key
-        let decrypted = decrypt_dword(last_dword, key.wrapping_add(chunks as u32));
-
-        // Write back only the remainder bytes
-        let decrypted_bytes = decrypted.to_le_bytes();
-        data[offset..(remainder + offset)].copy_from_slice(&decrypted_bytes[..remainder]);
-    }
+    // The MPQ cipher operates on whole dwords only: the trailing `len % 4` bytes of a unit are
+    // stored in the clear (StormLib's DecryptMpqBlock rounds the length down to dwords).
 }
 
 /// Information about a file in the archive
